@@ -39,6 +39,7 @@ pub fn run_line(line: &str, scratch: &str) -> String {
         "iter" => by_width!(c, op_iter),
         "hash" => by_width!(c, op_hash),
         "build" => by_width!(c, op_build, scratch),
+        "hist" => by_width!(c, op_hist, scratch),
         _ => format!("unknown-op:{}", c.op),
     })
 }
@@ -162,4 +163,229 @@ fn op_build<IntT: for<'a> UInt<'a>>(c: &Case, scratch: &str) -> String {
     v.sort();
     let items: Vec<String> = v.iter().map(|(a, b)| format!("{}:{}", a, *b as char)).collect();
     join(&items)
+}
+
+// ------------------------------------------------------------------ table histories
+
+use hashbrown::HashMap;
+use ska::cli::FilterType;
+use ska::generic_modes;
+use ska::merge_ska_array::MergeSkaArray;
+use ska::merge_ska_dict::MergeSkaDict;
+
+pub fn parse_table<IntT: for<'a> UInt<'a>>(s: &str) -> (Vec<String>, HashMap<IntT, Vec<u8>>) {
+    let (n, r) = s.split_once('|').expect("table needs names|rows");
+    let names: Vec<String> = if n == "~" { vec![] } else { n.split(',').map(|x| x.to_string()).collect() };
+    let mut rows = HashMap::new();
+    if r != "~" {
+        for item in r.split(',') {
+            let (key, cells) = item.split_once(':').expect("row needs key:cells");
+            rows.insert(parse_int::<IntT>(key), cells.as_bytes().to_vec());
+        }
+    }
+    (names, rows)
+}
+
+pub fn make_array<IntT: for<'a> UInt<'a>>(k: usize, rc: bool, table: &str) -> MergeSkaArray<IntT> {
+    let (mut names, mut rows) = parse_table::<IntT>(table);
+    let mut d = MergeSkaDict::new(k, names.len(), rc);
+    d.build_from_array(&mut names, &mut rows);
+    MergeSkaArray::new(&d)
+}
+
+pub fn dump_array<IntT: for<'a> UInt<'a>>(a: &MergeSkaArray<IntT>) -> String {
+    let mut rows: Vec<(IntT, Vec<u8>)> = a.iter().collect();
+    rows.sort();
+    let items: Vec<String> = rows
+        .iter()
+        .map(|(k, v)| format!("{}:{}", k, String::from_utf8_lossy(v)))
+        .collect();
+    format!("k={},rc={},names={};rows={}", a.kmer_len(), a.rc() as u8, join(a.names()), join(&items))
+}
+
+fn filter_type(s: &str) -> FilterType {
+    match s {
+        "noconst" => FilterType::NoConst,
+        "noambig" => FilterType::NoAmbig,
+        "noambigorconst" => FilterType::NoAmbigOrConst,
+        _ => FilterType::NoFilter,
+    }
+}
+
+fn parse_fasta_text(text: &str) -> Vec<(String, String)> {
+    let mut out: Vec<(String, String)> = Vec::new();
+    for l in text.lines() {
+        if let Some(n) = l.strip_prefix('>') {
+            out.push((n.to_string(), String::new()));
+        } else if let Some(last) = out.last_mut() {
+            last.1.push_str(l.trim_end());
+        }
+    }
+    out
+}
+
+/// columns of an alignment as a sorted multiset
+fn columns_of(seqs: &[(String, String)]) -> String {
+    if seqs.is_empty() {
+        return "~".into();
+    }
+    let len = seqs[0].1.len();
+    if seqs.iter().any(|s| s.1.len() != len) {
+        return "ragged".into();
+    }
+    let mut cols: Vec<String> = (0..len)
+        .map(|p| seqs.iter().map(|s| s.1.as_bytes()[p] as char).collect())
+        .collect();
+    cols.sort();
+    join(&cols)
+}
+
+/// min_freq such that ceil(n*f) = t robustly (and floor(n*f) = t-1 for t >= 1)
+fn freq_for(t: usize, n: usize) -> f64 {
+    if t == 0 || n == 0 {
+        0.0
+    } else {
+        f64::min(1.0, (t as f64 - 0.5) / n as f64)
+    }
+}
+
+/// `hist`: a start table, a sequence of operations through `generic_modes` with
+/// save/reload at every step, then observers on fresh loads of the final file.
+fn op_hist<IntT: for<'a> UInt<'a>>(c: &Case, scratch: &str) -> String {
+    let k = c.usize("k");
+    let rc = c.flag("rc");
+    let dir = format!("{scratch}/hist");
+    let _ = std::fs::remove_dir_all(&dir);
+    std::fs::create_dir_all(&dir).unwrap();
+    let cur = format!("{dir}/cur.skf");
+    make_array::<IntT>(k, rc, c.get("start")).save(&cur).unwrap();
+    let ops = c.get("ops");
+    let mut step = 0;
+    if ops != "~" {
+        for op in ops.split(';') {
+            step += 1;
+            let f: Vec<&str> = op.split('/').collect();
+            let res = std::panic::catch_unwind(std::panic::AssertUnwindSafe(|| match f[0] {
+                "merge" => {
+                    let ok = if f.len() > 2 { f[2].parse().unwrap() } else { k };
+                    let orc = if f.len() > 3 { f[3] == "1" } else { rc };
+                    let other = format!("{dir}/other{step}.skf");
+                    make_array::<IntT>(ok, orc, f[1]).save(&other).unwrap();
+                    let first = MergeSkaArray::<IntT>::load(&cur).unwrap();
+                    let out = format!("{dir}/m{step}");
+                    generic_modes::merge(&first, &[other], &out);
+                    std::fs::rename(format!("{out}.skf"), &cur).unwrap();
+                }
+                "delete" => {
+                    let mut a = MergeSkaArray::<IntT>::load(&cur).unwrap();
+                    let names: Vec<&str> = if f[1] == "~" { vec![] } else { f[1].split('+').collect() };
+                    generic_modes::delete(&mut a, &names, &cur);
+                }
+                "weed" => {
+                    // weed/<recs '+'-separated or ~>/<rev>/<tf>/<famb>/<ft>/<mask>/<gaps>
+                    let mut a = MergeSkaArray::<IntT>::load(&cur).unwrap();
+                    let weed_file = if f[1] == "~" {
+                        None
+                    } else {
+                        let p = format!("{dir}/weed{step}.fa");
+                        let recs: Vec<&str> = f[1].split('+').collect();
+                        write_fasta(&p, &recs, "w");
+                        Some(p)
+                    };
+                    let n = a.nsamples();
+                    let tf: usize = f[3].parse().unwrap();
+                    // floor(n * f) = tf
+                    let mf = if tf == 0 { 0.0 } else { f64::min(1.0, (tf as f64 + 0.5) / n as f64) };
+                    generic_modes::weed(
+                        &mut a,
+                        &weed_file,
+                        f[2] == "1",
+                        mf,
+                        f[4] == "1",
+                        &filter_type(f[5]),
+                        f[6] == "1",
+                        f[7] == "1",
+                        &cur,
+                    );
+                }
+                "reload" => {
+                    let a = MergeSkaArray::<IntT>::load(&cur).unwrap();
+                    a.save(&cur).unwrap();
+                }
+                _ => panic!("unknown hist op"),
+            }));
+            if let Err(e) = res {
+                let msg = if let Some(s) = e.downcast_ref::<String>() {
+                    s.clone()
+                } else if let Some(s) = e.downcast_ref::<&str>() {
+                    s.to_string()
+                } else {
+                    String::new()
+                };
+                // a refused operation must leave the current file as it was
+                let after = MergeSkaArray::<IntT>::load(&cur).map(|a| dump_array(&a)).unwrap_or("unreadable".into());
+                return format!("step{}:{};file={}", step, classify_panic(&msg), after);
+            }
+        }
+    }
+    let mut out: Vec<String> = Vec::new();
+    for ob in c.get("obs").split(';') {
+        let f: Vec<&str> = ob.split('/').collect();
+        let mut a = MergeSkaArray::<IntT>::load(&cur).unwrap();
+        match f[0] {
+            "nk" => {
+                let cnt: Vec<String> = a.n_sample_kmers().iter().map(|x| x.to_string()).collect();
+                out.push(format!("nk[{};counts={}]", dump_array(&a), join(&cnt)));
+            }
+            "align" => {
+                // align/<t>/<ft>/<mask>/<gaps>/<famb>
+                let t: usize = f[1].parse().unwrap();
+                let path = format!("{dir}/aln.fa");
+                let n = a.nsamples();
+                generic_modes::align(
+                    &mut a,
+                    &Some(path.clone()),
+                    &filter_type(f[2]),
+                    f[3] == "1",
+                    f[4] == "1",
+                    freq_for(t, n),
+                    f[5] == "1",
+                );
+                let seqs = parse_fasta_text(&std::fs::read_to_string(&path).unwrap());
+                let names: Vec<String> = seqs.iter().map(|s| s.0.clone()).collect();
+                out.push(format!("align[names={};cols={}]", join(&names), columns_of(&seqs)));
+            }
+            "dist" => {
+                // dist/<t>/<filt_ambig>
+                let t: usize = f[1].parse().unwrap();
+                let path = format!("{dir}/dist.txt");
+                let n = a.nsamples();
+                generic_modes::distance(&mut a, &Some(path.clone()), freq_for(t, n), f[2] == "1", 1);
+                let text = std::fs::read_to_string(&path).unwrap();
+                let mut items: Vec<String> = Vec::new();
+                for l in text.lines().skip(1) {
+                    let p: Vec<&str> = l.split('\t').collect();
+                    let d: f64 = p[2].parse().unwrap();
+                    let m: f64 = p[3].parse().unwrap();
+                    items.push(format!("{}-{}:~{}:~{}", p[0], p[1], (d * 100.0).round() as i64, (m * 100000.0).round() as i64));
+                }
+                out.push(format!("dist[{}]", join(&items)));
+            }
+            "rawdist" => {
+                // rawdist/<constant>: MergeSkaArray::distance on the stored table
+                let cst: f64 = f[1].parse().unwrap();
+                let d = a.distance(cst);
+                let mut items: Vec<String> = Vec::new();
+                for (i, row) in d.iter().enumerate() {
+                    for (jj, (dist, mm)) in row.iter().enumerate() {
+                        items.push(format!("{}-{}:{}:~{}", i, i + 1 + jj, (dist * 36.0).round() as i64, (mm * 1e9).round() as i64));
+                    }
+                }
+                out.push(format!("rawdist[{}]", join(&items)));
+            }
+            _ => out.push("unknown-observer".into()),
+        }
+    }
+    let _ = std::fs::remove_dir_all(&dir);
+    out.join(" ")
 }
